@@ -184,7 +184,9 @@ extern "C"
     void prog_delegate_delete(void *d) { delete (Dlg *)d; }
     // how: bit 0 = prioritised; bit 1 = the owner hands the wake-up to its other handler once the waiter stands in the line
     // (waiter_delegate_init on a parked waiter, under the system lock: handler and object change, the place in the line stays)
-    void prog_delegate_park(void *dv, void *head, int how)
+    // bit 2: ... and then dies while it stands in the line (its owner is torn down): the waiter object is destroyed under the
+    // system lock, its destructor takes it out of the queue; the owner continues with a fresh waiter (returned)
+    void *prog_delegate_park(void *dv, void *head, int how)
     {
         Dlg *d = (Dlg *)dv;
         igris::dlist_base *h = (igris::dlist_base *)head;
@@ -198,7 +200,16 @@ extern "C"
             d->handler = !d->handler;
             waiter_delegate_init(&d->w, d->handler ? dlg_handler_b : dlg_handler, d);
         }
+        if (how & 4)
+        {
+            int id = d->id, kind = d->kind;
+            h_delegate_dying(id);
+            delete d;
+            system_unlock();
+            return prog_delegate_new(id, kind);
+        }
         system_unlock();
+        return d;
     }
 
     // ------------------------------------------------------------------ P-queue
